@@ -15,7 +15,7 @@ metadata only after force_flush returned Ok; force_flush returns Ok only with no
 error; retirement is guarded by successor_is_durable_or_deleted; Drop drains workers before metadata.
 Not decided: which contents a crash image recovers to (needs crash images, not a static fact).
 """
-DECIDED = ['admission bound, header-fit bound and field layout of writer and recovery agree (shared with C10.record)', 'writer and recovery token folds agree (shared with C10.token)', 'successor_is_durable_or_deleted memoises only after its verdict and answers true only behind a durable / memoised / deleted generation', "(a) fsync between device write and acknowledging return", "(b) journal/data/clear/publish order and Ok-guards",
+DECIDED = ['every accepted mutation is handed to the write buffer (a replacement together with the generation it replaced) unless store configuration says there is no device; no record state is consulted at enqueue time (shared with C19.handoff)', 'admission bound, header-fit bound and field layout of writer and recovery agree (shared with C10.record)', 'writer and recovery token folds agree (shared with C10.token)', 'successor_is_durable_or_deleted memoises only after its verdict, answers true only behind a durable / memoised / deleted generation, and memoises only generations the walk moved past (never the one it stopped at)', "(a) fsync between device write and acknowledging return", "(b) journal/data/clear/publish order and Ok-guards",
            "(c) flush()/force_flush acknowledgement shape", "(d) retire only after successor durable",
            "(e) Drop: finish_shutdown before metadata before DiskIO::shutdown",
            'recovery frees an owned extent with the length of the generation whose sector it releases',
@@ -720,6 +720,31 @@ def check_successor(ctx, inst="C02.successor"):
     first_succ = R.call("OnceLock::get").filter(lambda bb, n: R.recv_expr(bb, n).has_arg(idx=1) and not any(x.k == "local" for x in R.recv_expr(bb, n).walk()), "self.successor")(b)
     edges += R.guard_edges_for_call(b, first_succ, "None")
     R.guard(ctx, inst, b, trues + stores, edges, "`true` (and the memo) only after reaching a durable / memoised / deleted generation or when no successor exists")
+    # who gets the memo (added after C03-i): the flag says "MY successor is durable or deleted", so only generations the walk has
+    # moved *past* may be collected - never the generation it stopped at (a durable generation is not thereby licensed to be
+    # retired before its own replacement reaches the device). Shape: every push onto the collected vector pushes the walked
+    # generation itself, and the walker is re-assigned (to its successor) before the walk can end or the memo be written.
+    walker = set()
+    for s in sec:
+        walker |= {x.extra for x in R.recv_expr(b, b.nodes[s]).walk() if x.k == "local" and b.local_name(x.extra)}
+    ctx.check(len(walker) == 1, inst, "anchor", b.path, "one walker local (the generation whose sector is tested), found %d" % len(walker), None)
+    pushes = R.call("Vec::push", "VecDeque::push_back", "SmallVec::push")(b)
+    ctx.check(len(pushes) >= 1, inst, "anchor", b.path, "generations passed by the walk are collected for the memo (pushes found: %d)" % len(pushes), None)
+    if len(walker) == 1:
+        w = next(iter(walker))
+        redefs = [n.id for n in b.nodes if n.kind in ("assign", "call") and (n.ev.get("dst") or n.ev.get("dest") or {}).get("l") == w
+                  and not (n.ev.get("dst") or n.ev.get("dest") or {}).get("p")]
+        ends = set(stores) | set(trues) | set(b.return_nodes())
+        for p in pushes:
+            v = R.arg_expr(b, b.nodes[p], 1)
+            is_w = (v.k == "local" and v.extra == w) or (v.k == "call" and "clone" in str(v.extra) and v.a and v.a[0].k == "local" and v.a[0].extra == w)
+            ctx.check(is_w, inst, "PROVENANCE", b.path, "the generation collected for the memo is the walked one itself", b.where(p), {"pushed": v.show()[:120]})
+            r3, ps3 = A.reach(b, A.succs(b, p), blocked_nodes=set(redefs))
+            bad = [x for x in ends if x in r3]
+            ctx.check(not bad, inst, "FOLLOW", b.path,
+                      "a collected generation has been walked past (the walker moves to its successor) before the walk can end: the generation the walk stops at never gets the memo",
+                      b.where(p), None if not bad else {"rule": "the memo store / verdict is reachable from the push without the walker being re-assigned",
+                                                        "witness": R.witness(b, ps3, r3.get(bad[0]))})
     # nobody else sets the memo
     n_other = 0
     for bb in ctx.prog.product_bodies():
@@ -918,7 +943,14 @@ def check_record_fit(ctx):
     C10.check_record(ctx, "C02.record-fit")
 
 
+def check_handoff(ctx):
+    """an acknowledged delete / overwrite can only be durable after flush if the write buffer was told about it (rules.common.check_handoff, shared with C19.handoff)"""
+    from rules.common import check_handoff as ch
+    ch(ctx, "C02.handoff")
+
+
 def check(ctx):
+    check_handoff(ctx)
     check_record_fit(ctx)
     check_token_agreement(ctx)
     check_partition(ctx)
